@@ -709,3 +709,61 @@ func init() {
 	addLevel("C15", "the group decoders read an encoded 0 boundary back as the epoch (writer/reader sentinel agreement with MarshalTime).")
 	addLevel("C16", "the group decoders read an encoded 0 boundary back as the epoch (a restored catalogue keeps groups that touch the epoch aligned and disjoint).")
 }
+
+func init() {
+	old := All["C16"].Run
+	All["C16"].Run = func(c *an.Ctx) {
+		old(c)
+		c16mergeReadsBeforeMoving(c)
+	}
+	All["C16"].Rules += " R9"
+	addLevel("C16", "mergeShardGroup reads the end time of the last merged group before any group is moved down in the list (after the move that slot holds a later group, and the surviving group would overlap it).")
+}
+
+// c16mergeReadsBeforeMoving — C16.R9.  Merging the groups [startLoc..endLoc] keeps the first one and
+// extends it to the end of the last one; the groups behind are moved down.  The end time must be
+// taken from slot endLoc BEFORE anything is moved: afterwards the slot holds a later group.
+func c16mergeReadsBeforeMoving(c *an.Ctx) {
+	const M = "lib/util/lifted/influx/meta"
+	r := c.Rule("C16.R9", "K-ORDER", M+":(*Data).mergeShardGroup — the end time of slot endLoc is read before any element of the list is moved")
+	f := fn(r, M+":Data.mergeShardGroup")
+	if f == nil {
+		return
+	}
+	reads := f.Find(an.MNode("read of ShardGroups[endLoc].EndTime", func(g *an.Fn, m ast.Node) bool {
+		sel, ok := m.(*ast.SelectorExpr)
+		if !ok || sel.Sel.Name != "EndTime" {
+			return false
+		}
+		// not the target of an assignment
+		if as, ok := g.Parent(sel).(*ast.AssignStmt); ok {
+			for _, l := range as.Lhs {
+				if l == ast.Expr(sel) {
+					return false
+				}
+			}
+		}
+		return g.Canon(sel) == "p2.ShardGroups[p1].EndTime"
+	}))
+	moves := f.Find(an.MNode("move inside ShardGroups", func(g *an.Fn, m ast.Node) bool {
+		switch x := m.(type) {
+		case *ast.CallExpr:
+			if id, ok := x.Fun.(*ast.Ident); ok && id.Name == "copy" && len(x.Args) == 2 {
+				return strings.HasPrefix(g.Canon(x.Args[0]), "p2.ShardGroups[")
+			}
+		case *ast.AssignStmt:
+			for i, l := range x.Lhs {
+				if ix, ok := ast.Unparen(l).(*ast.IndexExpr); ok && g.Canon(ix.X) == "p2.ShardGroups" && i < len(x.Rhs) {
+					return true
+				}
+			}
+		}
+		return false
+	}))
+	r.AddSites(reads.Len() + moves.Len())
+	if reads.Len() == 0 || moves.Len() == 0 {
+		r.Fail(f.Name+": shape", c.P.Pos(f.Body.Pos()), "expected the read of ShardGroups[endLoc].EndTime and the move of the tail (found %d / %d)", reads.Len(), moves.Len())
+		return
+	}
+	f.NeverAfter(r, moves, reads, "no read of slot endLoc after the tail was moved")
+}
